@@ -495,7 +495,7 @@ func (g *gen) clientSlot() int {
 		return 0
 	}
 	if g.r.Intn(40) == 0 {
-		return g.nc + 3 // an empty slot: nil client
+		return 900 + g.r.Intn(3) // a slot that is never filled: nil client
 	}
 	s := g.r.Intn(g.nc)
 	for tries := 0; tries < 4; tries++ {
@@ -561,7 +561,7 @@ func (g *gen) genOp(th int) (op, bool) {
 		p := r.Intn(g.np)
 		s := g.clientSlot()
 		if r.Intn(8) == 0 {
-			s = g.nc + 5 // Fulfill(nil)
+			s = 950 // never filled: Fulfill(nil)
 		}
 		rt := g.rootOf(s)
 		if rt >= 0 && rt <= p {
@@ -789,7 +789,7 @@ func run(out *Out, r *Rand, tier string, replay []string) {
 		} else {
 			n := 1500
 			if tier == "thorough" {
-				n = 40000
+				n = 100000
 			}
 			for i := 0; i < n; i++ {
 				mode := "conc"
